@@ -49,6 +49,11 @@ func genC04(seed uint64, tier string) *plan.Plan {
 	type cur struct{ t gTemplate }
 	current := map[tkey]*gTemplate{} // generator's view (may be wrong after bad templates: the model decides)
 	stale := map[tkey]*gTemplate{}
+	type badMsg struct {
+		b    []byte
+		kind string
+	}
+	lastBad := map[tkey]badMsg{}
 	n := 6 + r.IntN(24)
 	if tier == "thorough" {
 		n = 6 + r.IntN(34)
@@ -78,6 +83,20 @@ func genC04(seed uint64, tier string) *plan.Plan {
 			current[k] = &t
 			add(client, t.templateMsg(hdr()), kind)
 		case x < 5: // bad template, fails after the id was read
+			if lb, ok := lastBad[k]; ok && r.IntN(3) == 0 {
+				// the same bad template record once more (an exporter that does not know better repeats
+				// itself): it is as bad as the first time, and whatever was learned in between goes
+				b := append([]byte(nil), lb.b...)
+				h := hdr()
+				b[4], b[5], b[6], b[7] = byte(h.ExportTime>>24), byte(h.ExportTime>>16), byte(h.ExportTime>>8), byte(h.ExportTime)
+				b[8], b[9], b[10], b[11] = byte(h.Sequence>>24), byte(h.Sequence>>16), byte(h.Sequence>>8), byte(h.Sequence)
+				if current[k] != nil {
+					stale[k] = current[k]
+				}
+				delete(current, k)
+				add(client, b, lb.kind+"-again")
+				continue
+			}
 			t := genTemplate(r, k.dom, k.id, tmplOpts{maxFields: 3})
 			var b []byte
 			kind := "badtemplate-"
@@ -115,6 +134,7 @@ func genC04(seed uint64, tier string) *plan.Plan {
 			}
 			delete(current, k)
 			add(client, b, kind)
+			lastBad[k] = badMsg{b, kind}
 		case x < 7 && x >= 6 && current[k] != nil:
 			// a template record with no fields for an id that has a template (RFC 7011 8.1 uses this
 			// shape to withdraw a template): it is the most recent template now, and defines nothing
